@@ -24,8 +24,14 @@ lexed as one variable token (`parseVar_good`), variables are inert in `fold` lik
 fires without an operator, comma or parenthesis between them), and **no key over `{n,1,v}` is in the blacklist**
 (the table fact now covers the three classes).
 
-Not theorems (sampled by the oracle and compared with the model): the punctuated-sentence families of the
-property (they involve folding over `,` `.` `!` `?` `:` tokens, where rules do fire). -/
+**Also proved (`sentence_not_sqli`, `sentence3_not_sqli`, `txt_not_sqli`): two of the three punctuated-sentence
+families.** `,` `?` and `: ` are tokens of their own classes; a word or number with a trailing dot is one bareword / one
+number; among tokens of the classes `{n,1,v,',','?',':'}` the only fold rule that can fire is `x , y` (drop two
+tokens), which keeps the window benign; and **no key over these six classes is in the blacklist** (table fact).
+
+Not a theorem (sampled by the oracle and compared with the model): the sentence family with `!`
+(`w w! w?`): `!` is an operator token, rules fire around it, and some fingerprints over the enlarged class set are
+blacklisted, so the claim depends on the particular shape. -/
 namespace LibInj.Properties.C14
 open LibInj LibInj.Tables LibInj.Sqli
 
@@ -74,13 +80,13 @@ theorem txt_item (x r : Bytes) (hx : Item x) (hsep : Sep r) (hr : Txt r) : Txt (
     ⟨w, vw, rfl, hdot, hv⟩
   · exact Txt.word (Or.inl ⟨hword, fun _ => hk1, fun _ => hk2⟩) hsep hr
   · exact Txt.word (Or.inr hnum) hsep hr
-  · have := Txt.wordAt (w := w) ⟨hword, fun _ => hk1, fun _ => hk2⟩ (Txt.var hv hsep hr)
+  · have := Txt.wordAt (w := w) ⟨hword, fun _ => hk1, fun _ => hk2⟩ (by decide) (Txt.var hv hsep hr)
     simpa [List.append_assoc] using this
   · have := Txt.var hv hsep hr
     simpa using this
-  · exact Txt.dec ⟨d1, d2, rfl, h1, h2⟩ hsep hr
+  · exact Txt.dec ⟨d1, d2, rfl, h1, h2.2⟩ hsep hr
   · exact Txt.dotted hdot hsep hr
-  · have := Txt.dottedAt (w := w) hdot (Txt.var hv hsep hr)
+  · have := Txt.dottedAt (w := w) hdot (by decide) (Txt.var hv hsep hr)
     simpa [List.append_assoc] using this
 
 theorem txt_items : ∀ (xs : List Bytes), (∀ x ∈ xs, Item x) → Txt (unwords xs)
@@ -131,7 +137,7 @@ theorem email2_not_sqli (w1 w2 w3 w4 : Bytes) (h1 : Word w1) (h2 : Word w2) (h3 
     · exact List.all_eq_true.mpr (fun x hx => by simp [isVarBodyByte, List.all_eq_true.mp ht4 x hx])
   have hd : GoodDotted (w1 ++ 46 :: w2) := by
     obtain ⟨c2, t2, hw2, hc2, ht2⟩ := h2
-    refine ⟨w1, w2, rfl, h1, by rw [hw2]; simp, by rw [hw2]; simp [isWordByteB, hc2, ht2], hk1, fun _ => hk.1, fun _ => hk.2⟩
+    refine ⟨w1, w2, rfl, h1, by rw [hw2]; simp [isWordByteB, hc2, ht2], hk1, fun _ => hk.1, fun _ => hk.2⟩
   have := benign_items_not_sqli [(w1 ++ 46 :: w2) ++ 64 :: (w3 ++ 46 :: w4)] (fun x hx => by
     have : x = (w1 ++ 46 :: w2) ++ 64 :: (w3 ++ 46 :: w4) := by simpa using hx
     subst this
@@ -145,6 +151,46 @@ theorem decimal_not_sqli (d1 d2 : Bytes) (h1 : Num d1) (h2 : Num d2) : isSQLi (d
     subst this
     exact Or.inr (Or.inr (Or.inr (Or.inr (Or.inl ⟨d1, d2, rfl, h1, h2⟩)))))
   simpa [unwords] using this
+
+/-- **the general form**: every text of the grammar `Txt` (`Proofs/BenignLex`: good words, unsigned integers, decimals,
+dotted identifiers, `@` variables, single or repeated spaces, the punctuation marks `,` `?` and `: `) is not SQLi -/
+theorem txt_not_sqli (input : Bytes) (h : Txt input) : isSQLi input = .ok (false, []) := isSQLi_txt input h
+
+/-- the sentence shape of the property: `w1, w2 w3.` — the comma is a token of its own class (the one fold rule it can
+trigger, `x , y` with both sides of the same benign class, only drops two tokens), the final `w3.` is one bareword -/
+theorem sentence_not_sqli (w1 w2 w3 : Bytes) (h1 : Word w1) (k1 : NotKeywordLike w1) (h2 : Word w2) (k2 : NotKeywordLike w2)
+    (h3 : Word w3) (k3 : searchKeyword w3 = 0 ∨ searchKeyword w3 = 110) (k3' : NotKeywordLike (w3 ++ [46])) :
+    isSQLi (w1 ++ 44 :: 32 :: (w2 ++ 32 :: (w3 ++ [46]))) = .ok (false, []) := by
+  apply isSQLi_txt
+  have g1 : GoodWord w1 := ⟨h1, fun _ => k1.1, fun _ => k1.2⟩
+  have g2 : GoodWord w2 := ⟨h2, fun _ => k2.1, fun _ => k2.2⟩
+  have g3 : GoodDotted (w3 ++ [46]) := ⟨w3, [], rfl, h3, rfl, k3, fun _ => k3'.1, fun _ => k3'.2⟩
+  have t3 : Txt ((w3 ++ [46]) ++ []) := Txt.dotted g3 (Or.inl rfl) Txt.nil
+  rw [List.append_nil] at t3
+  have t2 := Txt.word (Or.inl g2) (Or.inr ⟨_, rfl⟩) (Txt.space t3)
+  exact Txt.wordAt g1 (by decide) (Txt.punct (Or.inl rfl) (Txt.space t2))
+
+/-- the third sentence shape of the property: `w1 w2: w3 d.` — `: ` is a token of class `:`, the final `d.` is one number -/
+theorem sentence3_not_sqli (w1 w2 w3 d : Bytes) (h1 : Word w1) (k1 : NotKeywordLike w1) (h2 : Word w2) (k2 : NotKeywordLike w2)
+    (h3 : Word w3) (k3 : NotKeywordLike w3) (hd : Num d) :
+    isSQLi (w1 ++ 32 :: (w2 ++ 58 :: 32 :: (w3 ++ 32 :: (d ++ [46])))) = .ok (false, []) := by
+  apply isSQLi_txt
+  have g1 : GoodWord w1 := ⟨h1, fun _ => k1.1, fun _ => k1.2⟩
+  have g2 : GoodWord w2 := ⟨h2, fun _ => k2.1, fun _ => k2.2⟩
+  have g3 : GoodWord w3 := ⟨h3, fun _ => k3.1, fun _ => k3.2⟩
+  have t4 : Txt ((d ++ [46]) ++ []) := Txt.dec ⟨d, [], rfl, hd, rfl⟩ (Or.inl rfl) Txt.nil
+  rw [List.append_nil] at t4
+  have t3 := Txt.word (Or.inl g3) (Or.inr ⟨_, rfl⟩) (Txt.space t4)
+  have t2 := Txt.wordAt g2 (show isSepByte 58 = true by decide) (Txt.colon t3)
+  exact Txt.word (Or.inl g1) (Or.inr ⟨_, rfl⟩) (Txt.space t2)
+
+/-- non-vacuity: the conclusion on `hello, dear world.` and on `note to: self 42.` is what the kernel computes -/
+example : (match isSQLi (bs "hello, dear world.") with | .ok (false, []) => true | _ => false) = true := by
+  decide +kernel
+example : (match isSQLi (bs "note to: self 42.") with | .ok (false, []) => true | _ => false) = true := by
+  decide +kernel
+/-- `world.` is no key and starts no phrase is an instance-level hypothesis; on the instance `world` it is checked here for the key itself -/
+example : searchKeyword (bs "world") = 0 ∧ searchKeyword (bs "world.") = 0 := by decide +kernel
 
 /-- non-vacuity: the conclusion on `joe@example.com 42` is what the kernel computes -/
 example : (match isSQLi [106,111,101,64,101,120,97,109,112,108,101,46,99,111,109,32,52,50] with | .ok (false, []) => true | _ => false) = true := by
